@@ -176,11 +176,11 @@ type pipe struct {
 	resume  map[uint16]uint64
 	valid   map[uint16]map[refOffset]bool // reference set of legal offset tuples
 	// settledAt[vb] = furthest settled seq (cumulative acknowledgement reading)
-	acked    map[uint16]uint64
-	oblig    map[uint16]uint64 // positions that MUST become durable: advancing acks, system / seqno-advanced events
-	file     string
-	failSave bool
-	gen      int // stream generation (restart count)
+	acked         map[uint16]uint64
+	oblig         map[uint16]uint64 // positions that MUST become durable: advancing acks, system / seqno-advanced events
+	file          string
+	failSave      bool
+	gen           int // stream generation (restart count)
 	checkedTracks map[uint16]int
 	checkedSaves  int
 }
